@@ -537,6 +537,9 @@ impl Server {
                         super::connection::BlockingOp::BLPop => { self.storage.lpush(wakeup.db, wakeup.key.clone(), vec![popped_value])?; }
                         _ => { self.storage.rpush(wakeup.db, wakeup.key.clone(), vec![popped_value])?; }
                     }
+                    // The element is in the list again: the next client waiting on the key has to
+                    // hear of it, or it stays blocked beside a list that is not empty
+                    self.blocking_manager.notify_key_ready(wakeup.db, &wakeup.key);
                 } else {
                     self.log_blocking_pop(&wakeup.op_type, wakeup.db, &wakeup.key);
                 }
